@@ -1,3 +1,4 @@
 import DfModel.Basic
 import DfModel.Matcher
 import DfModel.Steps
+import DfModel.Validate
